@@ -57,24 +57,12 @@ Proof.
   intros Hs Hd. apply decode_ok_inv in Hd. pose proof (strict_decode t Hs (S (length bs)) bs) as H. now rewrite Hd in H.
 Qed.
 
-(* the same over CodecDom's [fixed_width] (DESIGN.md's statement) *)
-Lemma strict_fixed_width : forall t w, strict t = true -> fixed_width t = Some w -> w = swidth t.
-Proof.
-  induction t using ty_ind_nested; intros w0 Hs; cbn [strict] in Hs; try discriminate; cbn [fixed_width swidth]; intros Hw;
-    try (injection Hw as <-; reflexivity); try discriminate.
-  - destruct (fixed_width t) as [w'|]; [|discriminate]. injection Hw as <-. now rewrite (IHt w' Hs eq_refl).
-  - destruct k; try discriminate. rewrite forallb_forall in Hs. revert w0 Hw.
-    induction H as [|m ms Hm _ IH]; intros w0 Hw; cbn [map sum_opt list_sum fold_right] in *; [now injection Hw|].
-    destruct (fixed_width (snd m)) as [a|] eqn:Ea; [|discriminate].
-    destruct (sum_opt (map (fun m0 : key * ty => fixed_width (snd m0)) ms)) as [b|] eqn:Eb; [|discriminate].
-    injection Hw as <-. rewrite (Hm a (Hs m (or_introl eq_refl)) eq_refl).
-    unfold list_sum in IH. rewrite (IH (fun x Hx => Hs x (or_intror Hx)) b eq_refl). reflexivity.
-Qed.
-
+(* DESIGN.md's statement, over the spec-side width *)
 Theorem no_short_fixed_width t w bs v rest :
-  strict t = true -> fixed_width t = Some w -> decode t bs = Ok (v, rest) -> (w <= length bs)%nat.
+  strict t = true -> width_of t = Some w -> decode t bs = Ok (v, rest) -> (w <= length bs)%nat.
 Proof.
-  intros Hs Hw Hd. rewrite (strict_fixed_width t w Hs Hw). pose proof (strict_consumes_width t bs v rest Hs Hd). lia.
+  intros Hs Hw Hd. rewrite (strict_width_of t Hs) in Hw. injection Hw as <-.
+  pose proof (strict_consumes_width t bs v rest Hs Hd). lia.
 Qed.
 
 (* ------------------------------------------------------------------ decode_all_exact *)
